@@ -13,5 +13,6 @@ if git merge --no-edit FETCH_HEAD >/tmp/merge_$n.log 2>&1; then echo "$n: merged
   done
   tools/resolve_lean_roots.py >/dev/null
   if grep -l '^<<<<<<< ' $(git diff --name-only --diff-filter=U) 2>/dev/null; then echo "$n: manual resolution needed"; exit 1; fi
+  /venv/bin/python harness/translate_tables.py lean/Pyxv/Generated/Tables.lean
   git add -A && git commit -qm "merge $n slice" && echo "$n: merged with routine conflict resolution"
 fi
